@@ -3,7 +3,7 @@
 import json, sys
 ENV = "GOFLAGS=-mod=mod GOPROXY=off GOSUMDB=off GOTOOLCHAIN=local"
 A = "controlled-scheduler stateless model checking of the real Executor (iterative preemption bounding + happens-before state-key pruning)"
-NOTE_A = "Bounded: the programs, --concurrency values and preemption bound listed per unit in the evidence; interleavings at hooked synchronisation operations and probe writes; scenario commands are mvdan/sh builtins (no external processes); a deadline only ever truncates the deepest bound (exhaustive:false, completed_bound reported)."
+NOTE_A = "Bounded: the programs, --concurrency values and preemption bound listed per unit in the evidence; interleavings at hooked synchronisation operations and probe writes; scenario commands are mvdan/sh builtins (units that drive real external processes through the CLI are named cli/... or external-process-... and explore no schedule); every shell command is preceded by a scheduling point (a command takes time); a deadline only ever truncates the deepest bound (exhaustive:false, completed_bound reported)."
 CHECKS = {
  "C01": dict(engine="A", technique=A + "; trace oracle: every dep completed successfully before each command start",
              text="Exhaustive exploration, within the stated preemption bound, of all schedules of the real Executor.Run on dependency graphs (diamonds over run-once/when_changed deps, failing shared deps, two-level cancellation, dep+call, parallel roots) x --concurrency {unlimited,1,2}; every command start is checked against the completion of every dep of its task.",
@@ -21,16 +21,16 @@ CHECKS = {
              text="For N in {unlimited,1,2,3} and graphs (chain, fan-out, diamond over run-once, nested calls in deps, failing nested fan-out, failing shared once, parallel roots): limit never exceeded, no deadlock (exact: no enabled thread), termination within horizon with all work done, and for every independent pair a witnessed overlapping schedule; cyclic references end with 204/201.",
              note=NOTE_A + " Cycle scenarios: default schedule only (1000 nested calls per execution)."),
  "C13": dict(engine="A", technique=A + "; enumerated guard kinds x outcomes x positions",
-             text="21 guard cases (platforms, requires, enum, preconditions, prompts incl. multi-prompt, internal, with --yes/--force/--force-all) x positions (direct, dep, nested call, shared run-once) under all schedules with a sibling (bound 1 quick / 3 thorough): no command of a blocked task or of anything needing it runs; documented status class.",
+             text="25 guard cases (platforms incl. multi-entry lists and platform + other guard, requires, enum, preconditions, prompts incl. multi-prompt, internal, with --yes/--force/--force-all) x positions (direct, dep, two deps, nested call, call from an ignore_error task, shared run-once); a precondition invalidated between two executions; internal through include options under all schedules with a sibling (bound 1 quick / 3 thorough): no command of a blocked task or of anything needing it runs; documented status class.",
              note=NOTE_A + " Prompts are answered through a line-at-a-time stdin with AssumeTerm."),
  "C14": dict(engine="A", technique=A + "; oracle: exactly-once, after last command, reverse order, before caller continues, EXIT_CODE",
              text="Programs with up to 3 defers (commands and task calls) at all positions, failing command at each position, nested tasks with own defers, alias/wildcard invocation, same task called repeatedly with different vars/outcome, cancellation by a failing sibling; all bounded schedules.",
              note=NOTE_A),
  "C04": dict(engine="B", technique="explicit-state BFS over edit/invocation histories on a real directory through the real CLI binary, with kill points at every command boundary, against a reference map fingerprint -> outcome of the last attempt",
-             text="All histories up to depth 3 (quick) / 5 (thorough) over {edit, touch, add, remove source; remove generated file; run; run failing at command k; run killed (kill -9 of Task) at command boundary k; prompt declined/accepted; --dry; --status; --list-all --json; --force (ok/failing); run of a task sharing the state file} x method {checksum,timestamp} x task shapes {plain, generates, prompt, colliding names, namespaced+label, deps, differing global method}; states deduplicated on (contents, mtime order, model). Oracle: a skipped run implies the last attempt at the present fingerprint succeeded and generates exist.",
-             note="Bounded depth; crashes are process kills at command boundaries (no torn writes / power loss); cancellation by a sibling failure is not covered by this engine; known findings (state recorded before the commands run; a:b / a-b share a state file) are listed in known_findings.jsonl."),
+             text="All histories up to depth 3 (quick) / 5 (thorough) over {edit, touch, add, remove source; remove generated file; run; run failing at command k; run killed (kill -9 of Task) at command boundary k; prompt declined/accepted; --dry; --status; --list-all --json; --force (ok/failing); run of a task sharing the state file} x method {checksum,timestamp} x task shapes {plain, generates, two generates entries, prompt, colliding names, namespaced+label, deps, differing global method, command rewrites one of its sources}; states deduplicated on (contents, mtime order, model). Oracle: a skipped run implies the last attempt at the present fingerprint succeeded and generates exist.",
+             note="Bounded depth; crashes are process kills at command boundaries (no torn writes / power loss); cancellation by a sibling failure and a failure inside a called shared task are covered by two controlled-scheduler families (cancelled-by-sibling/*, last-command-calls-failed-shared-task/*) whose every resulting directory is fed to a follow-up run; known findings (a:b / a-b share a state file; timestamp + generates after a failed or killed run) are listed in known_findings.jsonl."),
  "C05": dict(engine="B", technique="explicit-state BFS over file-operation/run histories through the real CLI binary against a reference matcher + fingerprint model",
-             text="All histories up to depth 3/5 over {edit matched/nested/excluded/deeply-excluded/unmatched file, touch, add, remove, rename, move to sub-directory, add excluded, remove generated, toggle status flag, edit the seed a dependency regenerates a source from, run, --force} x method x shapes {plain, generates, status, exclude-before-include, dep-regenerates-source}; oracle in both directions (idempotence and sensitivity).",
+             text="All histories up to depth 3/5 over {edit matched/nested/excluded/deeply-excluded/unmatched file, touch, add, remove, rename, move to sub-directory, add excluded, remove generated, toggle status flag, edit the seed a dependency regenerates a source from, run, --force} x method x shapes {plain, generates, two generates, generator that keeps an existing output, status, exclude-before-include, dep-regenerates-source, task in an included Taskfile}; plus histories over {run a, run b, edit a, edit b} for one task definition with a templated label (one fingerprint per component); oracle in both directions (idempotence and sensitivity).",
              note="Bounded depth and file alphabet; mtimes are real (tick discipline), state key uses the order type of mtimes."),
  "C09": dict(engine="A", technique="controlled-scheduler model checking of Executor.Setup with every Go-map iteration order (rewritten map ranges in taskfile, taskfile/ast and dominikbraun/graph) and every reader/merge goroutine schedule as explored choices",
              text="For 8 include configurations (siblings with overlapping vars/tasks, diamond, diamond with internal on one side, same file twice, nested siblings, flatten+aliases, optional include broken inside) every load with <=1 (quick) / <=2 (thorough) deviations from the canonical map order / default schedule computes the same canonical dump (task order, aliases, attributes, commands, global vars).",
@@ -39,13 +39,13 @@ CHECKS = {
              text="Programs with same-text dynamic variables in different dirs/envs, the same task called with different vars (env, dynamic var, literal, sub-call, templated defer), global dynamic var per task, matrix refs; T's observable commands must equal the T-alone baseline, sequentially and under all bounded schedules when run concurrently.",
              note=NOTE_A),
  "C12": dict(engine="B", technique="explicit-state BFS over histories; every read-only invocation is checked for a byte- and mtime-identical tree and for not running commands",
-             text="For every state reachable by C04's histories (depth 3/5) and every read-only invocation {--dry, --status, --list, --list-all, --list-all --json, --json --no-status, --summary, --dry --force, --summary/--dry with an uncompilable second task} x shapes (incl. dir: that does not exist yet): snapshot (names, contents, mtimes, incl. .task) identical before and after, no command executed. Identical state => identical continuations (deterministic), so the continuation clause follows.",
+             text="For every state reachable by C04's histories (depth 3/5) and every read-only invocation {--dry, --status, --list, --list-all, --list-all --json, --json --no-status, --summary, --dry --force, --summary/--dry with an uncompilable second task} x shapes (incl. dir: that does not exist yet, with and without dynamic variable / precondition / status commands; a deferred shell command; a label that depends on a call variable): snapshot (names, contents, mtimes, incl. .task) identical before and after, no command executed. Identical state => identical continuations (deterministic), so the continuation clause follows.",
              note="Bounded depth; snapshot compares every file of the project directory."),
  "C17": dict(engine="A", technique="controlled-scheduler model checking of the real output.Group / output.Prefixed wrappers: all chunkings (environment choices) x all interleavings of the underlying writes (unbounded, state-key pruning)",
              text="Direct harness: 2-3 threads each write every chunking (<=3 writes) of {'', 'x\\n', 'x', 'x\\ny', 'x\\ny\\n', '\\n'} through a wrapper and close; all begin/end/error_only settings; ALL interleavings; oracle: the stream is a sequence of whole blocks / whole prefixed lines, bytes conserved. Plus the same through the Executor with parallel deps (bound 2/3).",
              note="Underlying writer records each Write atomically (as os.File does); colours off."),
  "C18": dict(engine="A", technique="controlled-scheduler exploration with ThreadSanitizer: harness built with -race, scheduler hand-offs hidden from the detector (RaceDisable + norace), shims re-create exactly the happens-before edges of the real primitives; scheduling points also after releases",
-             text="23 scenario bodies (the concurrency scenarios of C01/C02/C06/C07/C14/C17, templated defers in parallel, matrix-ref rows in parallel deps, same-text dynamic vars, failing run-once with two callers, --list-all --json, reader on sibling includes): every schedule within the bound is also a vector-clock race check of its happens-before class; a report counts when both stacks run through Task's own code.",
+             text="27 scenario bodies (the concurrency scenarios of C01/C02/C06/C07/C14/C17, templated defers in parallel, matrix-ref rows in parallel deps, same-text dynamic vars, failing run-once with two callers, --list-all --json, reader on sibling includes, wildcard/alias resolution and missing tasks resolved in parallel, shared set:/shopt: lists): every schedule within the bound is also a vector-clock race check of its happens-before class; a report counts when both stacks run through Task's own code.",
              note="Bound 0-2 (quick) / +1 (thorough); code paths no scenario reaches are not covered; races are reported per explored schedule (incidental synchronisation can order accesses in a given schedule)."),
  "C08": dict(engine="C", technique="bounded-exhaustive enumeration of include configurations on the real loader/executor (in-process) against a reference table of callable names, origins, directories, visible include vars and attributes",
              text="All 64 subsets of include options {dir, internal, flatten, aliases, excludes, vars} on one include x every callable name (namespaced, alias-namespaced, namespace-as-default, task aliases, internal, excluded, non-existent, via deps, ':'-root references); all 256 pairs of {flatten, aliases, excludes, internal} subsets on a two-level chain; attribute-by-attribute comparison of the merged copy with its definition (simple/advanced/flatten/nested include); diamonds, uneven diamonds, same file twice / twice nested with different vars, cycles (110), missing (non-)optional files, version mismatch, flatten collisions.",
@@ -57,13 +57,13 @@ CHECKS = {
              text="21 name tokens incl. ':', '.', '*', '-', '(', '[', '+', '$', '^', '|', '\\', ' ', '?', overlapping prefix/suffix patterns; all sets of <=2 names (both orders, root/included placement, as alias), alias layouts (shared, equal to a task name, matched by a wildcard), 3-name sets in thorough; ~40 requested names each: exact > first wildcard in Taskfile order (parent first) with exact MATCH > unique alias > 203 > 200 with suggestion for one-edit misses.",
              note="Bounded alphabet; suggestion oracle only demands a suggestion when exactly one plain name is one edit away."),
  "C16": dict(engine="C", technique="bounded-exhaustive shape-grammar enumeration: every schema position x every shape, executed in crash-isolated in-process batches (child processes of the harness) plus CLI runs for text-level cases; oracle: no panic, no hang",
-             text="A skeleton Taskfile with a value at ~120 schema positions; each position replaced by each of 56 (quick) / 77 (thorough) shapes (null, scalars, lists, maps with every known key, templates, 1 kB strings); top-level shapes of an INCLUDED file x include-option subsets; decode errors on each line x 6 line terminators; 25 include locations x 2 forms x remote experiment on/off; 21x5 task/alias names. Pipeline per document: read, merge, list (json), compile, resolve 5+ names, dry-run, status, summary, real run.",
+             text="A skeleton Taskfile with a value at ~120 schema positions; each position replaced by each of 64 (quick) / 85 (thorough) shapes (null, scalars incl. a YAML timestamp, lists, maps with every known key, templates, 1 kB strings, strings a shell-word expansion reads as no word, option-letter lists); top-level shapes of an INCLUDED file x include-option subsets; decode errors on each line x 6 line terminators; 25 include locations x 2 forms x remote experiment on/off; 21x5 task/alias names. Pipeline per document: read, merge, list (json), compile, resolve 5+ names, dry-run, status, summary, real run.",
              note="Not arbitrary byte strings: the YAML lexer itself is exercised only through these documents. Panics on Task's own goroutines are caught by process isolation; a 30 s horizon per document."),
  "C19": dict(engine="C", technique="bounded-exhaustive enumeration of argument vectors over a hostile token alphabet through the real CLI binary and an argv-dumping helper",
              text="38 tokens (spaces, tab, newline, quotes, backslash, $VAR, $(cmd), backticks, globs, braces, operators, template delimiters, '=', empty, dash-prefixed, non-ASCII, 4 kB): all vectors of length <=2 and length 3 over the 9 most hostile tokens after '--' -> {{.CLI_ARGS}}; NAME=value -> {{shellQuote .X}} / {{q .X}} for every token and 60 combinations; NAME=a=b=c splitting; 10 --init path cases.",
              note="Known finding: values containing '{{' are template-expanded (recorded)."),
  "C20": dict(engine="D", technique="explicit-state BFS over (remote content version, server mode, cache files + timestamp age, approved checksum) with real CLI invocations against a loopback HTTP server owned by the harness",
-             text="Server content {v1 (longer), v2}, modes {up, refusing, HTTP 500, (thorough) silent beyond --timeout}; 9 (12) flag combinations of --yes/--download/--offline/--expiry/--insecure; events: content change, mode change, cache expiry, kill between the cache writes; BFS to depth 5 (9) with state deduplication (fixpoint reported). Oracles: trust (nothing unapproved runs; 104 only when approval is needed), availability (approved cached copy runs offline / when the server fails), transport (105 without --insecure), download is cached.",
+             text="Server content {v1 (longer), v2}, modes {up, refusing, HTTP 500, (thorough) silent beyond --timeout}; 9 (12) flag combinations of --yes/--download/--offline/--expiry/--insecure; events: content change, mode change, cache expiry, kill between the cache writes; BFS to depth 5 (9) with state deduplication (fixpoint reported). The same BFS for an `optional: true` include and with --dry / --status invocations (which must approve nothing). Further units: two URLs differing only in the query string; a remote Taskfile including another remote one under silent/refusing/500 servers; a slow include next to a changed, unapproved one (104, not the timeout status); upper/mixed-case http scheme spellings. Oracles: trust (nothing unapproved runs; a declined download ends with 104; 104 only when approval is needed), availability (approved cached copy runs offline / when the server fails), transport (no request without --insecure; 105 where the error can surface), download is cached.",
              note="stdin is not a terminal (a prompt means declined); loopback only."),
 }
 ALL = ["C%02d" % i for i in range(1, 21)]
